@@ -237,7 +237,7 @@ def ufunc_origin_stage(Rn, tier, rng):
     for (R, idx, oname, of), line, o in zip(cases, lines, out):
         if o.startswith("ERR"): m = s_ = "oracle-error: " + o[:80]
         else: m, s_ = parse(o)
-        sp = tuple(np.array(x) if isinstance(x, list) else x for x in idx) if isinstance(idx, tuple) else idx
+        sp = tuple(np.array(x, dtype=int) if isinstance(x, list) else x for x in idx) if isinstance(idx, tuple) else idx      # dtype: an empty list is an empty INTEGER index
         impl = guarded(lambda: canon(of(RaggedArray(R, dtype=int))[sp]))
         Rn.record(line + " on " + oname, impl, m, s_, len(R) >= 2, "ufunc-result/" + oname, py=f"a = RaggedArray({R}); ({oname})[{idx!r}]")
 
